@@ -5,6 +5,7 @@ overlays (self-validation variants) need no scratch copy.
 import ast
 import os
 from .report import AnalysisError
+from . import canon
 
 PKG_DIRS = ('elftools', 'scripts')
 
@@ -100,6 +101,7 @@ class Model(object):
         if overlay:
             self.sources.update(overlay)
         self.trees = {}
+        self.renamed = []       # [(mod, qual, {current: reference})] locals renamed by sa/canon.py
         self.classes = {}       # name -> [ClassInfo]
         self.funcs = {}         # (mod, qual) -> FuncInfo
         self.by_name = {}       # bare function/method name -> [FuncInfo]
@@ -114,6 +116,9 @@ class Model(object):
                 self.trees[rel] = ast.parse(src, filename=rel)
             except SyntaxError as e:
                 raise AnalysisError('A-PARSE', rel, 'syntax error: %s' % e)
+            # alpha-renaming invariance: locals spelled differently from the reference table are aligned by binding
+            # signature and renamed back in this in-memory tree (sa/canon.py)
+            canon.canonicalise(rel, self.trees[rel], self.renamed)
         for rel, tree in self.trees.items():
             syms = self.mod_symbols.setdefault(rel, {})
             self._collect(rel, tree, '', None, syms, toplevel=True)
